@@ -243,6 +243,15 @@ def run_case(c):
             for code2 in (0xa0, 0xa9, 0xbf, 0x80):
                 s = textref.encode([('NOTE', chr(code) + chr(code2)), ('k' + chr(code), 'plain')], D)
                 judge(res, s, False)
+        # keywords that differ only in letter case, standard-looking ($...) and not, are different keywords and come back as written
+        for keys in (['$cyt', '$CYT'], ['$Op', '$OP', '$op'], ['$p1s', 'Note', 'NOTE'], ['$Custom/Key', '$CUSTOM/KEY'], ['$btim'], ['ka', 'kA', 'Ka', 'KA']):
+            pairs = [(k_, 'v%d' % i) for i, k_ in enumerate(keys)]
+            for dd in ('/', '|', '\x0c'):
+                pp = [(k_.replace('/', dd), v) for k_, v in pairs]
+                for supp, leading in ((False, True), (True, True), (True, False)):
+                    s = textref.encode(pp, dd, leading=leading)
+                    assert textref.parse(s, dd, supp) == dict(pp)
+                    judge(res, s, supp, dd)
         res.sample({'alphabet': 'bytes 0x80..0xff in pairs', 'example': 'Jos\xc3\xa9 / 37\xc2\xb0C'})
         return res
     if k == 'files-bad-stext':
